@@ -294,7 +294,7 @@ static void record(const void * e)
 
 static int accept_cb(const void * e, void * p)
 {
-    (void)p;
+    h_priv_check(p, 1);
     record(e);
     return nvisited++ == stop_at;
 }
@@ -302,7 +302,7 @@ static int accept_cb(const void * e, void * p)
 static int visit_cb(void * e, void * p)
 {
     const int idx = nvisited;
-    (void)p;
+    h_priv_check(p, 2);
     record(e);
     nvisited++;
     if ((erase_mask >> (idx % 62)) & 1) {
@@ -316,7 +316,7 @@ static int visit_cb(void * e, void * p)
 static int cvisit_cb(const void * e, void * p)
 {
     const int idx = nvisited;
-    (void)p;
+    h_priv_check(p, 3);
     record(e);
     nvisited++;
     return idx == stop_at ? 7 : 0;
@@ -391,7 +391,7 @@ static void op(int argc, char ** argv)
             r = cstl_hash_find(h, h_size(argv[2]), NULL, NULL);
         } else {
             stop_at = h_int(argv[3]);
-            r = cstl_hash_find(h, h_size(argv[2]), accept_cb, NULL);
+            r = cstl_hash_find(h, h_size(argv[2]), accept_cb, H_PRIV(1));
         }
         outf("r=%ld of=", id_of_elem(r));
         print_visited();
@@ -420,13 +420,13 @@ static void op(int argc, char ** argv)
         int r;
         stop_at = h_int(argv[2]);
         erase_mask = strtoull(argv[3], NULL, 10);
-        r = cstl_hash_foreach(h, visit_cb, NULL);
+        r = cstl_hash_foreach(h, visit_cb, H_PRIV(2));
         outf("r=%d v=", r);
         print_visited();
     } else if (!strcmp(o, "fconst") && argc == 3 && h) {
         int r;
         stop_at = h_int(argv[2]);
-        r = cstl_hash_foreach_const(h, cvisit_cb, NULL);
+        r = cstl_hash_foreach_const(h, cvisit_cb, H_PRIV(3));
         outf("r=%d v=", r);
         print_visited();
     } else if (!strcmp(o, "clear") && argc == 3 && h) {
